@@ -187,7 +187,12 @@ func DecodeIdFromList(cborData []byte) (int, error) {
 	if listLen == 0 {
 		return 0, errors.New("cannot return first item from empty list")
 	}
-	if listLen < int(CborMaxUintSimple) {
+	// The fast path reads the item at byte offset 1, which is only where the
+	// first item lives when the list header is a single byte (a definite
+	// length encoded minimally). Non-minimal headers (0x98..0x9b) are longer.
+	if cborData[0] >= CborTypeArray &&
+		cborData[0] <= (CborTypeArray+CborMaxUintSimple) &&
+		listLen < int(CborMaxUintSimple) {
 		if cborData[1] <= CborMaxUintSimple {
 			return int(cborData[1]), nil
 		}
